@@ -66,7 +66,9 @@ Finish == /\ phase = "run" /\ Len(ops) >= 1
           /\ phase' = "done" /\ UNCHANGED <<di, doc, ops, paths>>
 
 \* quick tier: the first operation ranges over all paths, later ones over a seeded sample
-Sample(n) == Len(ops) = 0 \/ Thorough \/ ((n * 7 + Len(ops) * 3 + Seed) % 3 = 0)
+Sample(n) == \/ Len(ops) = 0
+             \/ Len(ops) = 1 /\ ((n * 7 + Seed) % (IF Thorough THEN 4 ELSE 3) = 0)
+             \/ Len(ops) = 2 /\ ((n * 5 + Seed) % 16 = 0)
 Next == \/ \E n \in 1..Len(paths) : Sample(n) /\ Reference(n)
         \/ \E n \in 1..Len(paths) : Sample(n) /\ \E vi \in 1..Len(R9Vals) : (Len(ops) = 0 \/ vi = 1 + ((n + Seed) % 3)) /\ Write(n, vi)
         \/ Finish
